@@ -11,6 +11,12 @@
    cache mutex is serialised by that mutex, so the shared state carries ONE holder automaton
    ([phase], tagged with the owner thread) next to the notifier state ([flag], [nlk]).
 
+   Panics: the creator and the callbacks are user code and may panic.  The unwinding drops the mutex
+   guards the thread holds, which POISONS those std mutexes ([cpois]: cached_env, [npois]: the notifier);
+   every later lock().unwrap() on a poisoned mutex panics in turn - such an operation hands out nothing
+   and does not return ([RPanic]).  A panic does not restore the reload flag; it is the poisoning that
+   keeps a stale environment from being handed out afterwards.
+
    Ghost state: [reqs] = number of completed flag-sets (request_reload's first lock section /
    the fs-watcher callback); [born] of an environment = [reqs] when its creator started or,
    with fast reload, when its template cache was cleared; [gen] = index of the creator call
@@ -51,13 +57,18 @@ Record st := {
   cached : option env;    (* AutoReloader.cached_env *)
   ph : phase;
   nlk : nholder;
+  cpois : bool;           (* cached_env mutex poisoned *)
+  npois : bool;           (* notifier mutex poisoned *)
   creator_calls : Z;
   clears : Z;             (* clear_templates calls (fast reload) *)
   notifies : Z            (* on_should_reload_callback invocations *)
 }.
 
 Definition init : st :=
-  {| flag := false; reqs := 0; cached := None; ph := Idle; nlk := NFree; creator_calls := 0; clears := 0; notifies := 0 |}.
+  {| flag := false; reqs := 0; cached := None; ph := Idle; nlk := NFree; cpois := false; npois := false;
+     creator_calls := 0; clears := 0; notifies := 0 |}.
+
+Inductive cbres := CbFalse | CbTrue | CbPanic.
 
 (* one step of one thread = what it does from one yield point to the next *)
 Inductive label :=
@@ -65,85 +76,100 @@ Inductive label :=
 | LReqNotify (t : Z) (entered : bool)   (* request_reload: lock; [entered]: on-should-reload callback entered, else return *)
 | LAcqCache (t : Z)                     (* acquire_env: cached_env.lock(); is_none() *)
 | LAcqCheck (t : Z)                     (* should_reload(): lock; flag; else enter the freshness callback / return *)
-| LFreshEnd (t : Z) (ans : bool)        (* the freshness callback returns *)
-| LOnCbEnd (t : Z)                      (* the on-should-reload callback returns *)
+| LFreshEnd (t : Z) (ans : cbres)       (* the freshness callback returns / panics *)
+| LOnCbEnd (t : Z) (panicked : bool)    (* the on-should-reload callback returns / panics *)
 | LAcqMark (t : Z)                      (* prepare_and_mark_reload: should_reload = false *)
 | LAcqFast (t : Z)                      (* fast_reload(): read; if set clear_templates and return the guard *)
 | LCreStart (t : Z)                     (* the creator starts *)
 | LCreEnd (t : Z) (ok : bool)           (* the creator returned; Ok: store, return the guard *)
+| LCrePanic (t : Z)                     (* the creator panics *)
 | LAcqRestore (t : Z)                   (* failed creator: should_reload = true; return Err *)
 | LDrop (t : Z)                         (* guard dropped *)
 | LBlocked (t : Z).                     (* t tries to take the notifier mutex while another thread is inside a callback: it sleeps *)
 
 (* what returned during the step (for LDrop: what the guard still dereferences to) *)
-Inductive ret := RNone | RErr | RReq | REnv (e : env).   (* RErr/REnv: acquire_env; RReq: request_reload *)
+Inductive ret := RNone | RErr | RReq | RPanic | REnv (e : env).
+(* RErr/REnv: acquire_env returned; RReq: request_reload returned; RPanic: the operation ended in a panic *)
 Record event := { lab : label; obs : ret }.
 
-Definition with_ph (s : st) (p : phase) : st :=
-  {| flag := flag s; reqs := reqs s; cached := cached s; ph := p; nlk := nlk s;
-     creator_calls := creator_calls s; clears := clears s; notifies := notifies s |}.
-Definition with_flag (s : st) (f : bool) : st :=
-  {| flag := f; reqs := reqs s; cached := cached s; ph := ph s; nlk := nlk s;
-     creator_calls := creator_calls s; clears := clears s; notifies := notifies s |}.
-Definition with_nlk (s : st) (n : nholder) : st :=
-  {| flag := flag s; reqs := reqs s; cached := cached s; ph := ph s; nlk := n;
-     creator_calls := creator_calls s; clears := clears s; notifies := notifies s |}.
-Definition with_cached (s : st) (e : env) : st :=
-  {| flag := flag s; reqs := reqs s; cached := Some e; ph := ph s; nlk := nlk s;
-     creator_calls := creator_calls s; clears := clears s; notifies := notifies s |}.
-Definition count_request (s : st) : st :=
-  {| flag := true; reqs := reqs s + 1; cached := cached s; ph := ph s; nlk := nlk s;
-     creator_calls := creator_calls s; clears := clears s; notifies := notifies s |}.
-Definition count_notify (s : st) : st :=
-  {| flag := flag s; reqs := reqs s; cached := cached s; ph := ph s; nlk := nlk s;
-     creator_calls := creator_calls s; clears := clears s; notifies := notifies s + 1 |}.
-Definition count_creator (s : st) : st :=
-  {| flag := flag s; reqs := reqs s; cached := cached s; ph := ph s; nlk := nlk s;
-     creator_calls := creator_calls s + 1; clears := clears s; notifies := notifies s |}.
-Definition count_clear (s : st) : st :=
-  {| flag := flag s; reqs := reqs s; cached := cached s; ph := ph s; nlk := nlk s;
-     creator_calls := creator_calls s; clears := clears s + 1; notifies := notifies s |}.
+Definition with_ph (s : st) (p : phase) : st := {| flag := flag s; reqs := reqs s; cached := cached s; ph := p; nlk := nlk s; cpois := cpois s; npois := npois s; creator_calls := creator_calls s; clears := clears s; notifies := notifies s |}.
+Definition with_flag (s : st) (f : bool) : st := {| flag := f; reqs := reqs s; cached := cached s; ph := ph s; nlk := nlk s; cpois := cpois s; npois := npois s; creator_calls := creator_calls s; clears := clears s; notifies := notifies s |}.
+Definition with_nlk (s : st) (n : nholder) : st := {| flag := flag s; reqs := reqs s; cached := cached s; ph := ph s; nlk := n; cpois := cpois s; npois := npois s; creator_calls := creator_calls s; clears := clears s; notifies := notifies s |}.
+Definition with_cached (s : st) (e : env) : st := {| flag := flag s; reqs := reqs s; cached := Some e; ph := ph s; nlk := nlk s; cpois := cpois s; npois := npois s; creator_calls := creator_calls s; clears := clears s; notifies := notifies s |}.
+Definition poison_cache (s : st) : st := {| flag := flag s; reqs := reqs s; cached := cached s; ph := ph s; nlk := nlk s; cpois := true; npois := npois s; creator_calls := creator_calls s; clears := clears s; notifies := notifies s |}.
+Definition poison_notifier (s : st) : st := {| flag := flag s; reqs := reqs s; cached := cached s; ph := ph s; nlk := nlk s; cpois := cpois s; npois := true; creator_calls := creator_calls s; clears := clears s; notifies := notifies s |}.
+Definition count_request (s : st) : st := {| flag := true; reqs := reqs s + 1; cached := cached s; ph := ph s; nlk := nlk s; cpois := cpois s; npois := npois s; creator_calls := creator_calls s; clears := clears s; notifies := notifies s |}.
+Definition count_notify (s : st) : st := {| flag := flag s; reqs := reqs s; cached := cached s; ph := ph s; nlk := nlk s; cpois := cpois s; npois := npois s; creator_calls := creator_calls s; clears := clears s; notifies := notifies s + 1 |}.
+Definition count_creator (s : st) : st := {| flag := flag s; reqs := reqs s; cached := cached s; ph := ph s; nlk := nlk s; cpois := cpois s; npois := npois s; creator_calls := creator_calls s + 1; clears := clears s; notifies := notifies s |}.
+Definition count_clear (s : st) : st := {| flag := flag s; reqs := reqs s; cached := cached s; ph := ph s; nlk := nlk s; cpois := cpois s; npois := npois s; creator_calls := creator_calls s; clears := clears s + 1; notifies := notifies s |}.
+(* a panic inside acquire_env unwinds through it: the cache mutex is poisoned and released *)
+Definition unwind_acq (s : st) : st := with_ph (poison_cache s) Idle.
+(* a panic inside request_reload: if the request was issued from inside the creator (thread t is the one
+   running it) the panic unwinds through the creator and acquire_env as well *)
+Definition creator_unwind (s : st) (t : Z) : st :=
+  match ph s with
+  | Creating t' _ _ _ => if t =? t' then unwind_acq s else s
+  | _ => s
+  end.
 Definition b2z (b : bool) : Z := if b then 1 else 0.
 Definition ev (l : label) (o : ret) : event := {| lab := l; obs := o |}.
 
 Inductive step (c : cfg) : st -> event -> st -> Prop :=
 (* request_reload *)
-| S_req_set s t : nlk s = NFree ->
+| S_req_set s t : nlk s = NFree -> npois s = false ->
     step c s (ev (LReqSet t) RNone) (count_request s)
-| S_req_notify_plain s t : nlk s = NFree -> on_cb c = false ->
+| S_req_notify_plain s t : nlk s = NFree -> npois s = false -> on_cb c = false ->
     step c s (ev (LReqNotify t false) RReq) s
-| S_req_notify_cb s t : nlk s = NFree -> on_cb c = true ->
+| S_req_notify_cb s t : nlk s = NFree -> npois s = false -> on_cb c = true ->
     step c s (ev (LReqNotify t true) RNone) (count_notify (with_nlk s (NOnCb t false)))
 | S_oncb_end_req s t : nlk s = NOnCb t false ->
-    step c s (ev (LOnCbEnd t) RReq) (with_nlk s NFree)
+    step c s (ev (LOnCbEnd t false) RReq) (with_nlk s NFree)
+| S_oncb_panic_req s t : nlk s = NOnCb t false ->
+    step c s (ev (LOnCbEnd t true) RPanic) (creator_unwind (poison_notifier (with_nlk s NFree)) t)
+| S_req_set_poisoned s t : nlk s = NFree -> npois s = true ->
+    step c s (ev (LReqSet t) RPanic) (creator_unwind s t)
+| S_req_notify_poisoned s t : nlk s = NFree -> npois s = true ->
+    step c s (ev (LReqNotify t false) RPanic) (creator_unwind s t)
 (* acquire_env *)
-| S_lock_empty s t : ph s = Idle -> cached s = None ->
+| S_lock_empty s t : ph s = Idle -> cpois s = false -> cached s = None ->
     step c s (ev (LAcqCache t) RNone) (with_ph s (Decided t (reqs s) WhyEmpty))
-| S_lock_some s t e : ph s = Idle -> cached s = Some e ->
+| S_lock_some s t e : ph s = Idle -> cpois s = false -> cached s = Some e ->
     step c s (ev (LAcqCache t) RNone) (with_ph s (Locked t (reqs s)))
-| S_check_flag s t r0 : ph s = Locked t r0 -> nlk s = NFree -> flag s = true ->
+| S_lock_poisoned s t : ph s = Idle -> cpois s = true ->
+    step c s (ev (LAcqCache t) RPanic) s
+| S_check_flag s t r0 : ph s = Locked t r0 -> nlk s = NFree -> npois s = false -> flag s = true ->
     step c s (ev (LAcqCheck t) RNone) (with_ph s (Decided t r0 WhyFlag))
-| S_check_keep s t r0 e : ph s = Locked t r0 -> nlk s = NFree -> flag s = false -> fresh_cb c = false -> cached s = Some e ->
+| S_check_keep s t r0 e : ph s = Locked t r0 -> nlk s = NFree -> npois s = false -> flag s = false -> fresh_cb c = false -> cached s = Some e ->
     step c s (ev (LAcqCheck t) (REnv e)) (with_ph s (Holding t r0))
-| S_check_enter s t r0 : ph s = Locked t r0 -> nlk s = NFree -> flag s = false -> fresh_cb c = true ->
+| S_check_enter s t r0 : ph s = Locked t r0 -> nlk s = NFree -> npois s = false -> flag s = false -> fresh_cb c = true ->
     step c s (ev (LAcqCheck t) RNone) (with_nlk s (NFresh t))
+| S_check_poisoned s t r0 : ph s = Locked t r0 -> nlk s = NFree -> npois s = true ->
+    step c s (ev (LAcqCheck t) RPanic) (unwind_acq s)
 | S_fresh_no s t r0 e : ph s = Locked t r0 -> nlk s = NFresh t -> cached s = Some e ->
-    step c s (ev (LFreshEnd t false) (REnv e)) (with_ph (with_nlk s NFree) (Holding t r0))
+    step c s (ev (LFreshEnd t CbFalse) (REnv e)) (with_ph (with_nlk s NFree) (Holding t r0))
 | S_fresh_yes_plain s t r0 : ph s = Locked t r0 -> nlk s = NFresh t -> on_cb c = false ->
-    step c s (ev (LFreshEnd t true) RNone) (with_ph (with_nlk s NFree) (Decided t r0 WhyFresh))
+    step c s (ev (LFreshEnd t CbTrue) RNone) (with_ph (with_nlk s NFree) (Decided t r0 WhyFresh))
 | S_fresh_yes_cb s t r0 : ph s = Locked t r0 -> nlk s = NFresh t -> on_cb c = true ->
-    step c s (ev (LFreshEnd t true) RNone) (count_notify (with_nlk s (NOnCb t true)))
+    step c s (ev (LFreshEnd t CbTrue) RNone) (count_notify (with_nlk s (NOnCb t true)))
+| S_fresh_panic s t r0 : ph s = Locked t r0 -> nlk s = NFresh t ->
+    step c s (ev (LFreshEnd t CbPanic) RPanic) (unwind_acq (poison_notifier (with_nlk s NFree)))
 | S_oncb_end_check s t r0 : ph s = Locked t r0 -> nlk s = NOnCb t true ->
-    step c s (ev (LOnCbEnd t) RNone) (with_ph (with_nlk s NFree) (Decided t r0 WhyFresh))
-| S_mark_empty s t r0 w : ph s = Decided t r0 w -> nlk s = NFree -> cached s = None ->
+    step c s (ev (LOnCbEnd t false) RNone) (with_ph (with_nlk s NFree) (Decided t r0 WhyFresh))
+| S_oncb_panic_check s t r0 : ph s = Locked t r0 -> nlk s = NOnCb t true ->
+    step c s (ev (LOnCbEnd t true) RPanic) (unwind_acq (poison_notifier (with_nlk s NFree)))
+| S_mark_empty s t r0 w : ph s = Decided t r0 w -> nlk s = NFree -> npois s = false -> cached s = None ->
     step c s (ev (LAcqMark t) RNone) (with_ph (with_flag s false) (PreCreate t r0 w))
-| S_mark_some s t r0 w e : ph s = Decided t r0 w -> nlk s = NFree -> cached s = Some e ->
+| S_mark_some s t r0 w e : ph s = Decided t r0 w -> nlk s = NFree -> npois s = false -> cached s = Some e ->
     step c s (ev (LAcqMark t) RNone) (with_ph (with_flag s false) (Cleared t r0 w))
-| S_fast_clear s t r0 w e : ph s = Cleared t r0 w -> nlk s = NFree -> fast c = true -> cached s = Some e ->
+| S_mark_poisoned s t r0 w : ph s = Decided t r0 w -> nlk s = NFree -> npois s = true ->
+    step c s (ev (LAcqMark t) RPanic) (unwind_acq s)
+| S_fast_clear s t r0 w e : ph s = Cleared t r0 w -> nlk s = NFree -> npois s = false -> fast c = true -> cached s = Some e ->
     step c s (ev (LAcqFast t) (REnv {| gen := gen e; born := reqs s |}))
          (count_clear (with_ph (with_cached s {| gen := gen e; born := reqs s |}) (Holding t r0)))
-| S_fast_off s t r0 w : ph s = Cleared t r0 w -> nlk s = NFree -> fast c = false ->
+| S_fast_off s t r0 w : ph s = Cleared t r0 w -> nlk s = NFree -> npois s = false -> fast c = false ->
     step c s (ev (LAcqFast t) RNone) (with_ph s (PreCreate t r0 w))
+| S_fast_poisoned s t r0 w : ph s = Cleared t r0 w -> nlk s = NFree -> npois s = true ->
+    step c s (ev (LAcqFast t) RPanic) (unwind_acq s)
 | S_cre_start s t r0 w : ph s = PreCreate t r0 w ->
     step c s (ev (LCreStart t) RNone) (count_creator (with_ph s (Creating t r0 (reqs s) w)))
 | S_cre_ok s t r0 b w : ph s = Creating t r0 b w ->
@@ -153,8 +179,12 @@ Inductive step (c : cfg) : st -> event -> st -> Prop :=
     step c s (ev (LCreEnd t false) RNone) (with_ph s (Failing t r0))
 | S_cre_err_unfixed s t r0 b w : ph s = Creating t r0 b w -> restore c = false ->
     step c s (ev (LCreEnd t false) RErr) (with_ph s Idle)
-| S_restore s t r0 : ph s = Failing t r0 -> nlk s = NFree ->
+| S_cre_panic s t r0 b w : ph s = Creating t r0 b w ->
+    step c s (ev (LCrePanic t) RPanic) (unwind_acq s)
+| S_restore s t r0 : ph s = Failing t r0 -> nlk s = NFree -> npois s = false ->
     step c s (ev (LAcqRestore t) RErr) (with_ph (with_flag s true) Idle)
+| S_restore_poisoned s t r0 : ph s = Failing t r0 -> nlk s = NFree -> npois s = true ->
+    step c s (ev (LAcqRestore t) RPanic) (unwind_acq s)
 | S_drop s t r0 e : ph s = Holding t r0 -> cached s = Some e ->
     step c s (ev (LDrop t) (REnv e)) (with_ph s Idle)
 (* any thread that wants the notifier mutex while another one is inside a callback goes to sleep *)
@@ -171,34 +201,47 @@ Definition nfree (s : st) : bool := match nlk s with NFree => true | _ => false 
 
 Definition exec (c : cfg) (s : st) (l : label) : option (st * ret) :=
   match l with
-  | LReqSet _ => if nfree s then Some (count_request s, RNone) else None
+  | LReqSet t =>
+      if nfree s then (if npois s then Some (creator_unwind s t, RPanic) else Some (count_request s, RNone)) else None
   | LReqNotify t entered =>
       if nfree s then
-        if on_cb c then (if entered then Some (count_notify (with_nlk s (NOnCb t false)), RNone) else None)
+        if npois s then (if entered then None else Some (creator_unwind s t, RPanic))
+        else if on_cb c then (if entered then Some (count_notify (with_nlk s (NOnCb t false)), RNone) else None)
         else (if entered then None else Some (s, RReq))
       else None
-  | LOnCbEnd t =>
+  | LOnCbEnd t panicked =>
       match nlk s with
-      | NOnCb t' false => if t =? t' then Some (with_nlk s NFree, RReq) else None
+      | NOnCb t' false =>
+          if t =? t' then
+            (if panicked then Some (creator_unwind (poison_notifier (with_nlk s NFree)) t, RPanic)
+             else Some (with_nlk s NFree, RReq))
+          else None
       | NOnCb t' true =>
           match ph s with
-          | Locked t'' r0 => if (t =? t') && (t =? t'') then Some (with_ph (with_nlk s NFree) (Decided t r0 WhyFresh), RNone) else None
+          | Locked t'' r0 =>
+              if (t =? t') && (t =? t'') then
+                (if panicked then Some (unwind_acq (poison_notifier (with_nlk s NFree)), RPanic)
+                 else Some (with_ph (with_nlk s NFree) (Decided t r0 WhyFresh), RNone))
+              else None
           | _ => None
           end
       | _ => None
       end
   | LAcqCache t =>
       match ph s with
-      | Idle => match cached s with
-                | None => Some (with_ph s (Decided t (reqs s) WhyEmpty), RNone)
-                | Some _ => Some (with_ph s (Locked t (reqs s)), RNone)
-                end
+      | Idle =>
+          if cpois s then Some (s, RPanic) else
+          match cached s with
+          | None => Some (with_ph s (Decided t (reqs s) WhyEmpty), RNone)
+          | Some _ => Some (with_ph s (Locked t (reqs s)), RNone)
+          end
       | _ => None
       end
   | LAcqCheck t =>
       match ph s with
       | Locked t' r0 =>
           if negb ((t =? t') && nfree s) then None else
+          if npois s then Some (unwind_acq s, RPanic) else
           if flag s then Some (with_ph s (Decided t r0 WhyFlag), RNone)
           else if fresh_cb c then Some (with_nlk s (NFresh t), RNone)
           else match cached s with Some e => Some (with_ph s (Holding t r0), REnv e) | None => None end
@@ -208,16 +251,21 @@ Definition exec (c : cfg) (s : st) (l : label) : option (st * ret) :=
       match ph s, nlk s with
       | Locked t' r0, NFresh t'' =>
           if negb ((t =? t') && (t =? t'')) then None else
-          if ans then
-            if on_cb c then Some (count_notify (with_nlk s (NOnCb t true)), RNone)
-            else Some (with_ph (with_nlk s NFree) (Decided t r0 WhyFresh), RNone)
-          else match cached s with Some e => Some (with_ph (with_nlk s NFree) (Holding t r0), REnv e) | None => None end
+          match ans with
+          | CbPanic => Some (unwind_acq (poison_notifier (with_nlk s NFree)), RPanic)
+          | CbTrue =>
+              if on_cb c then Some (count_notify (with_nlk s (NOnCb t true)), RNone)
+              else Some (with_ph (with_nlk s NFree) (Decided t r0 WhyFresh), RNone)
+          | CbFalse =>
+              match cached s with Some e => Some (with_ph (with_nlk s NFree) (Holding t r0), REnv e) | None => None end
+          end
       | _, _ => None
       end
   | LAcqMark t =>
       match ph s with
       | Decided t' r0 w =>
           if negb ((t =? t') && nfree s) then None else
+          if npois s then Some (unwind_acq s, RPanic) else
           match cached s with
           | None => Some (with_ph (with_flag s false) (PreCreate t r0 w), RNone)
           | Some _ => Some (with_ph (with_flag s false) (Cleared t r0 w), RNone)
@@ -228,6 +276,7 @@ Definition exec (c : cfg) (s : st) (l : label) : option (st * ret) :=
       match ph s with
       | Cleared t' r0 w =>
           if negb ((t =? t') && nfree s) then None else
+          if npois s then Some (unwind_acq s, RPanic) else
           if fast c then
             match cached s with
             | Some e =>
@@ -256,9 +305,16 @@ Definition exec (c : cfg) (s : st) (l : label) : option (st * ret) :=
           else Some (with_ph s Idle, RErr)
       | _ => None
       end
+  | LCrePanic t =>
+      match ph s with
+      | Creating t' r0 b w => if negb (t =? t') then None else Some (unwind_acq s, RPanic)
+      | _ => None
+      end
   | LAcqRestore t =>
       match ph s with
-      | Failing t' r0 => if negb ((t =? t') && nfree s) then None else Some (with_ph (with_flag s true) Idle, RErr)
+      | Failing t' r0 =>
+          if negb ((t =? t') && nfree s) then None else
+          if npois s then Some (unwind_acq s, RPanic) else Some (with_ph (with_flag s true) Idle, RErr)
       | _ => None
       end
   | LDrop t =>
@@ -278,7 +334,7 @@ Definition exec (c : cfg) (s : st) (l : label) : option (st * ret) :=
 Definition env_eqb (a b : env) : bool := (gen a =? gen b) && (born a =? born b).
 Definition ret_eqb (a b : ret) : bool :=
   match a, b with
-  | RNone, RNone | RErr, RErr | RReq, RReq => true
+  | RNone, RNone | RErr, RErr | RReq, RReq | RPanic, RPanic => true
   | REnv x, REnv y => env_eqb x y
   | _, _ => false
   end.
